@@ -39,15 +39,13 @@ CasesFor(S) ==
 Cases == UNION {CasesFor(S) : S \in Bases}
 
 \* brute force over all pairs of edit sets (CrossCheck)
-Brute == LET raw == UNION {LET es == UpTo(Larger(MaxSide, MaxPair)) IN
+Brute == LET raw == UNION {LET es == UpTo(MaxSide)  ep == UpTo(MaxPair) \ {{}} IN
                                {Case("L1", fl, S, D, {}) : D \in es, fl \in Flavours}
                           \cup {Case("L2", fl, S, {}, D) : D \in es, fl \in Flavours}
                           \cup {Case("L3", fl, S, D, D)  : D \in es \ {{}}, fl \in Flavours}
-                          \cup {Case("L4", fl, S, T, O)  : T \in es \ {{}}, O \in es \ {{}}, fl \in Flavours}
+                          \cup {Case("L4", fl, S, T, O)  : T \in ep, O \in ep, fl \in Flavours}
                           : S \in Bases}
-             Size(k) == IF k.law = "L4" THEN /\ Len(k.dT) <= MaxPair /\ Len(k.dO) <= MaxPair
-                                             /\ Len(k.dT) + Len(k.dO) <= MaxSum
-                        ELSE Len(k.dT) <= MaxSide /\ Len(k.dO) <= MaxSide
+             Size(k) == k.law = "L4" => Len(k.dT) + Len(k.dO) <= MaxSum
          IN {k \in raw : Size(k) /\ WellFormed(k) /\ Antecedent(k.law, k)}
 ASSUME CrossCheck => Cases = Brute
 
